@@ -19,7 +19,8 @@ import Mathlib.Tactic.Positivity
 import Mathlib.Algebra.Order.Field.Basic
 import Mathlib.Algebra.Order.Ring.Rat
 
-namespace Shangrla.XR
+namespace Shangrla.XRRange
+open Shangrla Shangrla.XR
 
 /-! ### `XR` on finite values -/
 
@@ -71,17 +72,9 @@ theorem fin_div_zero (a : Rat) :
   show div (fin a) (fin 0) = _
   simp [div]
 
-end Shangrla.XR
+end Shangrla.XRRange
 
 namespace Shangrla.NM
-open Shangrla.XR (fin)
-
-/-! ### `eps` -/
-
-theorem eps_pos : 0 < eps := by unfold eps; norm_num
-theorem eps_lt_one : eps < 1 := by unfold eps; norm_num
-theorem one_sub_eps_pos : 0 < 1 - eps := by unfold eps; norm_num
-theorem one_sub_eps_le_one : 1 - eps ≤ 1 := by unfold eps; norm_num
 
 /-! ### the parameters as the methods resolve them (`getattr(self, name, default)`) -/
 
@@ -96,6 +89,18 @@ def Cfg.c0V (cfg : Cfg) : Rat := cfg.kw.cG0.getD (1 - eps)
 def Cfg.cmV (cfg : Cfg) : Rat := cfg.kw.cGmax.getD (1 - eps)
 def Cfg.cgV (cfg : Cfg) : Rat := cfg.kw.cGgrow.getD 0
 def Cfg.p2V (cfg : Cfg) : Rat := cfg.kw.rateError2.getD (1 / 10000)
+end Shangrla.NM
+
+namespace Shangrla.NMRange
+open Shangrla Shangrla.NM
+open Shangrla.XR (fin)
+
+/-! ### `eps` -/
+
+theorem eps_pos : 0 < eps := by unfold eps; norm_num
+theorem eps_lt_one : eps < 1 := by unfold eps; norm_num
+theorem one_sub_eps_pos : 0 < 1 - eps := by unfold eps; norm_num
+theorem one_sub_eps_le_one : 1 - eps ≤ 1 := by unfold eps; norm_num
 
 /-- the sample is not longer than the population -/
 def LenOK (N : Option Nat) (x : List Rat) : Prop := ∀ n, N = some n → x.length ≤ n
@@ -323,7 +328,7 @@ theorem sdList_posFin (sqrtF : Rat → Rat) (minsd : Rat) (hm : 0 < minsd)
     · rw [List.mem_map] at ha
       obtain ⟨v, hv, rfl⟩ := ha
       have hv0 := welford_var_nonneg x v hv
-      rw [sqrtX_fin sqrtF hv0, XR.npmax_fin]
+      rw [sqrtX_fin sqrtF hv0, XRRange.npmax_fin]
       exact ⟨_, rfl, lt_of_lt_of_le hm (le_max_right _ _)⟩
 
 /-! ### closed forms of the estimators -/
@@ -370,7 +375,7 @@ theorem stEntry_fin (sqrtF : Rat → Rat) (hs : ∀ q, 0 < q → 0 < sqrtF q) (u
   have h1 : (1 + f / p) ≠ 0 := by positivity
   unfold stEntry stWeighted
   simp only [sqrtX_fin sqrtF (le_of_lt hdj), XR.fin_div _ _ (ne_of_gt hdj), XR.fin_div _ _ (ne_of_gt hp),
-    XR.fin_div _ _ (ne_of_gt hsq), XR.one_def, XR.fin_add, XR.fin_div _ _ h1, XR.npmax_fin, XR.npmin_fin]
+    XR.fin_div _ _ (ne_of_gt hsq), XR.one_def, XR.fin_add, XR.fin_div _ _ h1, XRRange.npmax_fin, XRRange.npmin_fin]
 
 /-! ### closed forms of the bets -/
 
@@ -524,13 +529,13 @@ theorem agEntry_range (sqrtF : Rat → Rat) (hs0 : ∀ q, 0 ≤ sqrtF q) (c0 cm 
   simp only [cJ_xr sqrtF hs0 c0 cm cg hg i, XR.fin_div _ _ (ne_of_gt hm), XR.zero_def]
   cases l with
   | fin q =>
-    rw [XR.npmin_fin, XR.npmax_fin]
+    rw [XRRange.npmin_fin, XRRange.npmax_fin]
     exact ⟨_, rfl, le_max_left _ _, max_le_max (le_refl _) (min_le_left _ _)⟩
   | pinf =>
-    rw [XR.npmin_fin_pinf, XR.npmax_fin]
+    rw [XRRange.npmin_fin_pinf, XRRange.npmax_fin]
     exact ⟨_, rfl, le_max_left _ _, le_refl _⟩
   | ninf =>
-    rw [XR.npmin_fin_ninf, XR.npmax_fin_ninf]
+    rw [XRRange.npmin_fin_ninf, XRRange.npmax_fin_ninf]
     exact ⟨0, rfl, le_refl _, le_max_left _ _⟩
   | nan => simp at hl
 
@@ -539,7 +544,7 @@ theorem agEntry_fin (sqrtF : Rat → Rat) (hs0 : ∀ q, 0 ≤ sqrtF q) (c0 cm cg
     (q m : Rat) (hm : m ≠ 0) :
     agEntry sqrtF c0 cm cg i (fin q, fin m) = fin (max 0 (min (cJ sqrtF c0 cm cg i / m) q)) := by
   unfold agEntry
-  simp only [cJ_xr sqrtF hs0 c0 cm cg hg i, XR.fin_div _ _ hm, XR.zero_def, XR.npmin_fin, XR.npmax_fin]
+  simp only [cJ_xr sqrtF hs0 c0 cm cg hg i, XR.fin_div _ _ hm, XR.zero_def, XRRange.npmin_fin, XRRange.npmax_fin]
 
 /-- with a finite `t_adj` every raw aGRAPA bet is finite: the denominator `s2 + (t_adj - mean)^2` vanishes
 only when the numerator does (the running variance is non-negative), and that `0/0` is replaced by 0 -/
@@ -557,7 +562,7 @@ theorem agRaw_fin (x : List Rat) (tAdj : List XR) (ht : ∀ ta ∈ tAdj, ∃ τ 
     have h0 : (τ - mu) * (τ - mu) = 0 := by linarith
     have h1 : τ - mu = 0 := by simpa using h0
     have h3 : mu - τ = 0 := by linarith
-    rw [hden, h3, XR.fin_div_zero]
+    rw [hden, h3, XRRange.fin_div_zero]
     exact ⟨0, by simp⟩
   · rw [XR.fin_div _ _ hden]
     exact ⟨(mu - τ) / (s2 + (τ - mu) * (τ - mu)), by simp⟩
@@ -567,10 +572,10 @@ theorem agEntry_fin_zero (sqrtF : Rat → Rat) (hs0 : ∀ q, 0 ≤ sqrtF q) (c0 
     (q : Rat) (hc : cJ sqrtF c0 cm cg i ≠ 0) :
     ∃ b : Rat, agEntry sqrtF c0 cm cg i (fin q, fin 0) = fin b ∧ 0 ≤ b := by
   unfold agEntry
-  simp only [cJ_xr sqrtF hs0 c0 cm cg hg i, XR.fin_div_zero, hc, ↓reduceIte, XR.zero_def]
+  simp only [cJ_xr sqrtF hs0 c0 cm cg hg i, XRRange.fin_div_zero, hc, ↓reduceIte, XR.zero_def]
   split
-  · rw [XR.npmin_pinf_fin, XR.npmax_fin]; exact ⟨_, rfl, le_max_left _ _⟩
-  · rw [XR.npmin_ninf_fin, XR.npmax_fin_ninf]; exact ⟨0, rfl, le_refl _⟩
+  · rw [XRRange.npmin_pinf_fin, XRRange.npmax_fin]; exact ⟨_, rfl, le_max_left _ _⟩
+  · rw [XRRange.npmin_ninf_fin, XRRange.npmax_fin_ninf]; exact ⟨0, rfl, le_refl _⟩
 
 /-- finiteness of `agrapa`: for `cGgrow ≥ 0`, a sample not longer than the population (so that no denominator
 `N - i` vanishes) and truncation levels `c_j ≠ 0` (e.g. `0 < cG0 ≤ cGmax`), every bet is a non-negative
@@ -650,4 +655,4 @@ theorem sqrtRat_pos (q : Rat) (hq : 0 < q) : 0 < sqrtRat q := by
   have hdk : 0 < q.den * 10 ^ 30 := Nat.mul_pos hd hk
   apply div_pos <;> exact_mod_cast (by assumption)
 
-end Shangrla.NM
+end Shangrla.NMRange
